@@ -59,7 +59,7 @@ fn triples_describe(tr: &[ParsedTriple], buf: &[u8], t: &T) -> Result<(), String
 }
 
 pub fn check_input(a: &mut Allocator, s: &[u8], acc: &mut Acc, full_hash: bool) {
-    check_input_sized(a, s, acc, full_hash, 4096 + 256 * s.len() as u64)
+    check_input_sized(a, s, acc, full_hash, 65536 + 256 * s.len() as u64)
 }
 
 pub fn check_input_sized(a: &mut Allocator, s: &[u8], acc: &mut Acc, full_hash: bool, bound: u64) {
@@ -302,14 +302,14 @@ pub fn run(ctx: &Ctx) -> Report {
                         inp.push(first);
                         inp.extend(std::iter::repeat(0x42).take(n as usize - 1));
                     }
-                    check_input_sized(&mut a, &inp, &mut acc, n <= 4096, 4096 + 8 * inp.len() as u64);
+                    check_input_sized(&mut a, &inp, &mut acc, n <= 4096, 65536 + 8 * inp.len() as u64);
                     acc.inc("prefix_class_cases");
                     // and nested as the left child of a pair
                     if n <= (1 << 16) {
                         let mut w = vec![0xff];
                         w.extend(&inp);
                         w.push(0x80);
-                        check_input_sized(&mut a, &w, &mut acc, false, 4096 + 8 * w.len() as u64);
+                        check_input_sized(&mut a, &w, &mut acc, false, 65536 + 8 * w.len() as u64);
                         acc.inc("prefix_class_cases");
                     }
                 }
@@ -323,7 +323,7 @@ pub fn run(ctx: &Ctx) -> Report {
     rep.states = rep.evaluations;
     rep.transitions = rep.evaluations * 4;
     rep.traces = rep.evaluations;
-    rep.rule = format!("every byte string of BYTES(3), BYTES({n}, Sigma-classic={}), {}every truncation and one-byte corruption (over {} replacement bytes) of every TREES(4,A6) serialization, and declared-size probes; each run through node_from_stream, parse_triples(hashes), tree_hash_from_stream and is_canonical_serialization and compared with an independent classic decoder (accept/reject, bytes consumed, tree, triple structure, hash, canonicity); per-input heap requests bounded by 4096+256*len via a counting allocator. Non-trivial = inputs accepted (a tree was decoded and compared).",
+    rep.rule = format!("every byte string of BYTES(3), BYTES({n}, Sigma-classic={}), {}every truncation and one-byte corruption (over {} replacement bytes) of every TREES(4,A6) serialization, and declared-size probes; each run through node_from_stream, parse_triples(hashes), tree_hash_from_stream and is_canonical_serialization and compared with an independent classic decoder (accept/reject, bytes consumed, tree, triple structure, hash, canonicity); per-input heap requests bounded by 64KiB+256*len (64KiB+8*len for the large prefix-class inputs) via a counting allocator. Non-trivial = inputs accepted (a tree was decoded and compared).",
         hx(&SIGMA_CLASSIC), if ctx.quick() { "" } else { "BYTES(4, 64-byte alphabet), " }, corrupt.len());
     rep.assumptions.push("reference decoder tree::deser (accepts length prefixes of up to 6 bytes with value < 2^34, like the documented format)".into());
     rep.assumptions.push("tree hashes compared against the independent SHA-256 for every 16th input (all three implementations are compared with each other on every input)".into());
